@@ -920,7 +920,7 @@ package parse
 //@   onpanic[drains;C18] old(t.lex).done
 
 //@ func SoyFile
-//@   props C05 C18
+//@   props C05 C18 C13
 //@   recoverby (*tree).recover
 //@   modifies *
 //@   ghost lx *lexer = nil
@@ -928,6 +928,7 @@ package parse
 //@   at call parse.lex#0 assert[scanner-is-given-the-file-text-and-name;C19] same(arg0, name) && same(arg1, text)
 //@   ensures[scanner-finished;C18] lx != nil && lx.done
 //@   ensures[file-node-keeps-the-scanned-text-and-name;C19] isnil(err) ==> node != nil && same(node.Text, text) && same(node.Name, name)
+//@   ensures[every-parse-builds-a-tree-of-its-own;C13] isnil(err) ==> fresh(node)
 //@   panicensures[scanner-finished-on-panic;C18] lx == nil || lx.done
 
 //@ func Expr
